@@ -84,22 +84,15 @@ func vpBitsOf(bl *utils.BitList) []bool {
 
 // content of n symbolic bytes; class: 0 arbitrary bytes, 1 digits, 2 upper-case letters, 3 bytes >= 0x80 (forces byte mode under Auto)
 func vpContent(n int) string {
-	s := vpString("c", n)
 	switch vpConfig("class") {
 	case 1:
-		for i := 0; i < n; i++ {
-			vpAssume(s[i] >= '0' && s[i] <= '9')
-		}
+		return vpStringRange("c", n, '0', '9')
 	case 2: // upper-case letters: a contiguous part of the alphanumeric set (the full set is covered by class 0 in VP_QR_stream)
-		for i := 0; i < n; i++ {
-			vpAssume(s[i] >= 'A' && s[i] <= 'Z')
-		}
+		return vpStringRange("c", n, 'A', 'Z')
 	case 3:
-		for i := 0; i < n; i++ {
-			vpAssume(s[i] >= 0x80)
-		}
+		return vpStringRange("c", n, 0x80, 0xff)
 	}
-	return s
+	return vpString("c", n)
 }
 
 func vpAllDigits(s string) bool {
@@ -154,13 +147,34 @@ func vpCheckStream(bits []bool, vi *versionInfo, content string, mode int) {
 }
 
 func VP_QR_stream() {
-	n := vpConfig("n")
-	level := ErrorCorrectionLevel(vpConfig("level"))
+	vpQRStream(vpConfig("n"), ErrorCorrectionLevel(vpConfig("level")), vpConfig("mode"))
+}
+
+// vpQRCapacity: the largest character count whose segment fits version v at the level (0 if none).
+func vpQRCapacity(v, level, mode int) int {
+	n := 0
+	for vpQRSegmentBits(v, mode, n+1) <= 8*vpQRDataCodewords(v, level) {
+		n++
+	}
+	return n
+}
+
+// QR-cap: capacity boundaries. Content of exactly the capacity of version v (delta 0) must be
+// placed in version v, one character more (delta 1) in version v+1, or be rejected beyond version 40.
+// The content is class-constrained (digits / upper-case letters / high bytes), its length is the
+// quantity under test.
+func VP_QR_boundary() {
+	v, level, mode := vpConfig("v"), vpConfig("level"), vpConfig("mode")
+	n := vpQRCapacity(v, level, mode) + vpConfig("delta")
+	vpQRStream(n, ErrorCorrectionLevel(level), mode)
+}
+
+func vpQRStream(n int, level ErrorCorrectionLevel, modeCfg int) {
 	content := vpContent(n)
 	var bl *utils.BitList
 	var vi *versionInfo
 	var err error
-	modeCfg := vpConfig("mode") // 0 auto, 1 numeric, 2 alphanumeric, 4 byte
+	// modeCfg: 0 auto, 1 numeric, 2 alphanumeric, 4 byte
 	switch modeCfg {
 	case 0:
 		bl, vi, err = encodeAuto(content, level)
